@@ -116,7 +116,7 @@ func honestNrOp(kp *KeyPair, tree T, ctx, nonce *big.Int, class, label string) O
 
 func genC11(g *Rng, tier string, emit func(Op)) {
 	keys := []*KeyPair{fixedKey("k1024a", true)}
-	depth, nscripts := 4, 6
+	depth, nscripts := 4, 14
 	nhonest := 0
 	if tier == "thorough" {
 		keys = append(keys, toyKey("toy1", 6), fixedKey("k2048", true))
@@ -139,16 +139,32 @@ func genC11(g *Rng, tier string, emit func(Op)) {
 			revoked := false
 			script := ""
 			// the first scripts are fixed: every path through cache preparation / refresh is taken
-			fixed := []string{"PoupP", "Popup", "PPoup", "ouPp", "Pouop", "Psup"}
+			fixed := []string{"PoupP", "Popup", "PPoup", "ouPp", "Pouop", "Psup", "Ptp", "PtPp", "tPp", "Poutp", "PtoutPp"}
 			for step := 0; step < depth || (sc < len(fixed) && step < len(fixed[sc])); step++ {
-				choice := g.intn(5)
+				choice := g.intn(6)
 				if sc < len(fixed) {
 					if step >= len(fixed[sc]) {
 						break
 					}
-					choice = map[byte]int{'P': 0, 'o': 1, 's': 2, 'u': 3, 'p': 4}[fixed[sc][step]]
+					choice = map[byte]int{'P': 0, 'o': 1, 's': 2, 'u': 3, 'p': 4, 't': 5}[fixed[sc][step]]
 				}
 				switch choice {
+				case 5:
+					// the issuer re-signs the unchanged accumulator with a later time ("no new
+					// revocations") and the holder takes it over (same index, no events)
+					script += "t"
+					wacc := cred.NonRevocationWitness.SignedAccumulator.Accumulator
+					if wacc.Index != ir.acc.Index {
+						continue
+					}
+					ir.t += 7
+					na := *ir.acc
+					na.Time = ir.t
+					ir.acc = &na
+					sacc, _ := na.Sign(kp.sk)
+					if err := cred.NonRevocationWitness.Update(pk, &revocation.Update{SignedAccumulator: sacc, Events: []*revocation.Event{}}); err != nil {
+						emit(Op{"op": "recorded", "class": "time-only-update", "label": "ok", "nomodel": true, "result": "err", "script": script})
+					}
 				case 0:
 					script += "P"
 					if err := cred.NonrevPrepareCache(); err != nil {
